@@ -157,3 +157,49 @@ def h_verbatim_explicit(k: int, h: str) -> bool:
         from htmltools import MetadataNode
         return Tag("style", h, MetadataNode(), _add_ws=False).get_html_string() == "<style>" + h + "</style>"
     return Tag("div", RH(h), "<").get_html_string() == "<div>\n  " + h + "&lt;\n</div>"
+
+
+_MARKUP = ['<b class="x">&amp; &</b>', "m" * 63 + "<i>", "n" * 64 + "<&>", "<p>" + "a &amp;&amp; b " * 12 + "</p>", "q" * 127 + "<", "r" * 128 + "<br/>",
+           "<code>x && y</code>\n" * 20, "é☃<u>&#233;</u> " * 60, "<" * 1100, "s" * 255 + "&", "t" * 256 + "&", "w" * 4096 + "<hr/>"]
+N_HIST = 6
+
+
+@harness("C04", pre=lambda B, mv, order: 0 <= mv < len(_MARKUP) and 0 <= order < N_HIST,
+         shard={"mv": range(len(_MARKUP))},
+         sel=["mv: markup strings of 23 to 4101 characters (lengths on both sides of 64, 128, 256, 1024, 4096; entities, newlines, non-ASCII)",
+              "order: 6 histories - the same characters emitted as plain text / attribute / script text before, between and after being emitted as HTML(), as a sole child and among siblings, and concatenated with themselves"],
+         targets=["htmltools._core._normalize_text", "htmltools._core.Tag.get_html_string", "htmltools._core.TagList.get_html_string", "htmltools._core.HTML.__add__",
+                  "htmltools._util.html_escape"],
+         outside="strings are catalogue values: the harness targets state carried between renderings (memoisation keyed by text, where HTML(s) == s), "
+                 "and length thresholds that the symbolic bound of 2-3 characters cannot reach")
+def h_verbatim_history(mv: int, order: int) -> bool:
+    """verbatim emission and escape-exactly-once do not depend on what was rendered earlier in the process"""
+    from engine.api import conc, concrete
+    return concrete(_vhist_body, conc(mv, 0, len(_MARKUP) - 1), conc(order, 0, N_HIST - 1))
+
+
+def _vhist_body(mv: int, order: int) -> bool:
+    m = _MARKUP[mv]
+    esc = ref_escape_text(m)
+    plain1 = lambda: Tag("span", m).get_html_string() == "<span>" + esc + "</span>"                               # noqa: E731
+    plainN = lambda: Tag("span", m, Tag("i", _add_ws=False), _add_ws=False).get_html_string() == "<span>" + esc + "<i></i></span>"              # noqa: E731
+    html1 = lambda: Tag("span", HTML(m)).get_html_string() == "<span>" + m + "</span>"                            # noqa: E731
+    htmlN = lambda: Tag("span", Tag("i", _add_ws=False), HTML(m), _add_ws=False).get_html_string() == "<span><i></i>" + m + "</span>"           # noqa: E731
+    top = lambda: TagList(HTML(m)).get_html_string() == m and TagList(m).get_html_string() == esc                  # noqa: E731
+    script = lambda: Tag("script", m).get_html_string() == "<script>" + m + "</script>"                           # noqa: E731
+    attr = lambda: Tag("a", title=HTML(m)).get_html_string() == '<a title="' + m + '"></a>'                       # noqa: E731
+    pattr = lambda: Tag("a", title=m).get_html_string().startswith('<a title="')                                  # noqa: E731
+    rh = lambda: Tag("span", RH(m), _add_ws=False).get_html_string() == "<span>" + m + "</span>"                                 # noqa: E731
+
+    def cat():
+        c = HTML(m) + m
+        d = m + HTML(m)
+        return isinstance(c, HTML) and isinstance(d, HTML) and Tag("span", c).get_html_string() == "<span>" + m + esc + "</span>" \
+            and Tag("span", d).get_html_string() == "<span>" + esc + m + "</span>" \
+            and Tag("span", HTML(m), m, _add_ws=False).get_html_string() == "<span>" + m + esc + "</span>"
+    seqs = [[plain1, html1, plain1, htmlN], [html1, plain1, html1, plainN], [script, html1, plain1, script, top], [pattr, attr, html1, plain1, attr],
+            [plainN, cat, html1, plain1], [rh, plain1, rh, html1, top, cat]]
+    for step in seqs[order]:
+        if not step():
+            return False
+    return True
